@@ -85,6 +85,16 @@ type ByronMainBlockHeader struct {
 	}
 }
 
+// MarshalCBOR returns the stored CBOR of a decoded ByronMainBlockHeader so that
+// re-serialising it reproduces the wire bytes; an object built in memory is
+// encoded from its fields
+func (x *ByronMainBlockHeader) MarshalCBOR() ([]byte, error) {
+	if x.Cbor() != nil {
+		return x.Cbor(), nil
+	}
+	return cbor.EncodeGeneric(x)
+}
+
 func (h *ByronMainBlockHeader) UnmarshalCBOR(cborData []byte) error {
 	type tByronMainBlockHeader ByronMainBlockHeader
 	var tmp tByronMainBlockHeader
@@ -175,6 +185,16 @@ type ByronTransactionBody struct {
 	TxInputs   []ByronTransactionInput
 	TxOutputs  []ByronTransactionOutput
 	Attributes cbor.RawMessage
+}
+
+// MarshalCBOR returns the stored CBOR of a decoded ByronTransactionBody so that
+// re-serialising it reproduces the wire bytes; an object built in memory is
+// encoded from its fields
+func (x *ByronTransactionBody) MarshalCBOR() ([]byte, error) {
+	if x.Cbor() != nil {
+		return x.Cbor(), nil
+	}
+	return cbor.EncodeGeneric(x)
 }
 
 func (t *ByronTransactionBody) UnmarshalCBOR(cborData []byte) error {
@@ -804,6 +824,16 @@ type ByronTransactionOutput struct {
 	OutputAmount  uint64         `json:"amount"`
 }
 
+// MarshalCBOR returns the stored CBOR of a decoded ByronTransactionOutput so that
+// re-serialising it reproduces the wire bytes; an object built in memory is
+// encoded from its fields
+func (x *ByronTransactionOutput) MarshalCBOR() ([]byte, error) {
+	if x.Cbor() != nil {
+		return x.Cbor(), nil
+	}
+	return cbor.EncodeGeneric(x)
+}
+
 func (o *ByronTransactionOutput) UnmarshalCBOR(data []byte) error {
 	// Save original CBOR
 	o.SetCbor(data)
@@ -1055,6 +1085,16 @@ type ByronEpochBoundaryBlockHeader struct {
 	ExtraData any
 }
 
+// MarshalCBOR returns the stored CBOR of a decoded ByronEpochBoundaryBlockHeader so that
+// re-serialising it reproduces the wire bytes; an object built in memory is
+// encoded from its fields
+func (x *ByronEpochBoundaryBlockHeader) MarshalCBOR() ([]byte, error) {
+	if x.Cbor() != nil {
+		return x.Cbor(), nil
+	}
+	return cbor.EncodeGeneric(x)
+}
+
 func (h *ByronEpochBoundaryBlockHeader) UnmarshalCBOR(cborData []byte) error {
 	type tByronEpochBoundaryBlockHeader ByronEpochBoundaryBlockHeader
 	var tmp tByronEpochBoundaryBlockHeader
@@ -1129,6 +1169,16 @@ type ByronMainBlock struct {
 	Extra       []any
 }
 
+// MarshalCBOR returns the stored CBOR of a decoded ByronMainBlock so that
+// re-serialising it reproduces the wire bytes; an object built in memory is
+// encoded from its fields
+func (x *ByronMainBlock) MarshalCBOR() ([]byte, error) {
+	if x.Cbor() != nil {
+		return x.Cbor(), nil
+	}
+	return cbor.EncodeGeneric(x)
+}
+
 func (b *ByronMainBlock) UnmarshalCBOR(cborData []byte) error {
 	type tByronMainBlock ByronMainBlock
 	var tmp tByronMainBlock
@@ -1198,6 +1248,16 @@ type ByronEpochBoundaryBlock struct {
 	BlockHeader *ByronEpochBoundaryBlockHeader
 	Body        []common.Blake2b224
 	Extra       []any
+}
+
+// MarshalCBOR returns the stored CBOR of a decoded ByronEpochBoundaryBlock so that
+// re-serialising it reproduces the wire bytes; an object built in memory is
+// encoded from its fields
+func (x *ByronEpochBoundaryBlock) MarshalCBOR() ([]byte, error) {
+	if x.Cbor() != nil {
+		return x.Cbor(), nil
+	}
+	return cbor.EncodeGeneric(x)
 }
 
 func (b *ByronEpochBoundaryBlock) UnmarshalCBOR(cborData []byte) error {
